@@ -23,7 +23,7 @@ func ResEqual(op string, a, b Res) bool {
 		return false
 	}
 
-	if a.Err != "ok" && a.Err != "EOF" {
+	if a.Err != "ok" && a.Err != "EOF" && !(op == "walk" && a.Err == "ECALLBACK") {
 		return true
 	}
 
@@ -34,6 +34,10 @@ func ResEqual(op string, a, b Res) bool {
 		return a.Path.Render() == b.Path.Render() && a.Path.Abs == b.Path.Abs
 	case "readdir", "freaddir", "freaddirnames":
 		return a.N == b.N && sameSet(a.Names, b.Names)
+	case "glob", "walk":
+		return sameSeq(a.Names, b.Names) // in order
+	case "exists", "direxists", "isdir", "isempty":
+		return a.N == b.N
 	case "readfile", "read", "readat":
 		return a.N == b.N && sameInts(a.Data, b.Data)
 	case "write", "writestring", "writeat", "seek", "open":
